@@ -1,12 +1,11 @@
 (* C39, case: globals given, locals not. *)
 From HyV Require Import State.EvalRestoreTactics.
-Local Opaque interp.
 
-Lemma case_globals_only Orc (F : frame_ok Orc) g kvs m vm vmac h log :
+Lemma case_globals_only O (F : frame_ok O) g kvs m vm vmac h log :
   hget h g = Some (ODict kvs) ->
-  post_both Orc m (VRef g) VNone vmac h (call_user Orc user_fuel m (VRef g) VNone vm vmac (h, log)).
+  wp_user O user_fuel m (VRef g) VNone vm vmac (h, log) (post_both O m (VRef g) VNone vmac h).
 Proof.
-  intros Hg. unfold call_user, call_fun, user_fuel, user_kw, user_prog, hy_eval_user_def.
+  intros Hg. unfold wp_user, user_fuel, user_kw.
   sx_go F.
   all: leaf.
 Qed.
